@@ -41,7 +41,7 @@ func funcTexts(code string) map[string]string {
 
 func c15(c *Ctx) {
 	c.Rep.TieObs = []string{"O-emit.text", "O-emit.map"}
-	c.Rep.Rule = "generator files compiled (a) three times through different worker processes, (b) by both entry points and code paths (ParseFile + Generate for the CLI, ParseString + Compose for the language server; also with a byte order mark, CRLF line ends and no final line break), (c) from 16 goroutines at once in permuted orders, (d) in pairs that differ in one template only, and in pairs where all templates but one are deleted; oracle: byte-identical text and identical position tables, unchanged templates keep their code; distinct = distinct input file; non-trivial = file has at least two templates"
+	c.Rep.Rule = "generator files compiled (a) three times through different worker processes and three times in a row inside one process, (b) by both entry points and code paths (ParseFile + Generate for the CLI, ParseString + Compose for the language server; also with a byte order mark, CRLF line ends and no final line break), (c) from 16 goroutines at once in permuted orders, (d) in pairs that differ in one template only, and in pairs where all templates but one are deleted; oracle: byte-identical text and identical position tables, unchanged templates keep their code; distinct = distinct input file; non-trivial = file has at least two templates"
 	var ins [][]byte
 	var files []*gen.File
 	n := c.N(60, 2500)
@@ -81,6 +81,9 @@ func c15(c *Ctx) {
 		}
 		if !same(a, b2) || !same(a, b3) {
 			c.fail("C15/repeat-differs", "compiling the same bytes again gives a different result", map[string]string{"input_hex": hx(in)})
+		}
+		if strings.HasPrefix(a.Repeat, "diff:") {
+			c.fail("C15/repeat-in-process-differs", "compiling the same bytes again in the same process: "+clip(string(unhx(strings.TrimPrefix(a.Repeat, "diff:"))), 300), map[string]string{"input_hex": hx(in)})
 		}
 		// (b) CLI path (ParseFile + Generate) vs LSP path (ParseString + Compose)
 		if a.Outcome == "ok" && strings.HasPrefix(a.GenSame, "diff:") && a.Err != "-" {
